@@ -295,9 +295,141 @@ def h_init(doc: bool, cache: bool, jobs: int, extra: bool, mode: int):
     assert not problems
 
 
+# ---------------------------------------------------------------------------------------- names that merely CONTAIN an id
+PRE = ["", "x", "0", "ab"]
+SUF = ["", ".bak", "_backup", "0", "abcdef01", "/"]   # 'abcdef01': a 40-hex name (a git object id); '/': trailing separator in the query
+
+
+def _idlike_case(name, where, deep, rel, sibling):
+    """a directory whose name contains (but is not) a job id: where 0 = child of the workspace, 1 = sub-directory inside a real job's
+    directory, 2 = plain sub-directory of the project. Only exactly-id-named workspace children are job directories, so the answer is
+    the real enclosing job (where 1) or LookupError - never a job whose directory does not contain the path."""
+    problems = []
+    with SL.Scratch() as sc:
+        pr = signac.init_project(os.path.join(sc.root, "proj"))
+        real = pr.open_job({"x": 1}).init()
+        jid = real.id
+        nm = name.replace("@", jid)
+        is_id = nm.rstrip("/") == jid
+        if where == 0:
+            if not sibling and not is_id:
+                real.remove()
+            d = os.path.join(pr.workspace, nm)
+        elif where == 1:
+            d = os.path.join(real.path, "sub", nm)
+        else:
+            d = os.path.join(pr.path, "plain", nm)
+        os.makedirs(os.path.join(d, "data"), exist_ok=True)
+        q = os.path.join(d, "data") if deep else d
+        if nm.endswith("/") and not deep:
+            q = d if d.endswith("/") else d + "/"
+        if where == 1 or (where == 0 and is_id):
+            want = (jid, pr.path, os.path.realpath(real.path))
+        elif where == 2 and is_id:
+            want = "outside"   # an id-named directory that is not a workspace child: excluded by the property
+        else:
+            want = None
+        old = os.getcwd()
+        try:
+            if rel:
+                os.chdir(sc.root)
+                q = os.path.relpath(q, sc.root) + ("/" if q.endswith("/") else "")
+            try:
+                j = signac.get_job(q)
+                got = (j.id, j.project.path, os.path.realpath(j.path))
+            except LookupError:
+                got = None
+            except Exception as e:  # noqa
+                got = ("error", type(e).__name__, str(e)[:80])
+            if want != "outside" and got != want:
+                problems.append(("get_job", nm if len(nm) < 80 else nm[:80], where, deep, got, want))
+            if got is not None and not isinstance(got[0], str):
+                pass
+            elif got is not None and not os.path.realpath(os.path.abspath(q)).startswith(got[2]) and want != "outside":
+                problems.append(("get_job returned a job whose directory does not contain the path", got))
+            try:
+                gp = signac.get_project(q).path
+            except LookupError:
+                gp = None
+            if gp != pr.path:
+                problems.append(("get_project", gp, pr.path))
+        finally:
+            os.chdir(old)
+    return problems
+
+
+def h_idlike(pre: int, suf: int, where: int, deep: bool, rel: bool, sibling: bool):
+    assert 0 <= pre < len(PRE) and 0 <= suf < len(SUF) and 0 <= where <= 2 and part_ok(pre)
+    fresh_path()
+    pre, suf, where, deep, rel, sibling = ci(pre, 0, len(PRE) - 1), ci(suf, 0, len(SUF) - 1), ci(where, 0, 2), cb(deep), cb(rel), cb(sibling)
+    if SUF[suf] == "/" and deep:
+        discard("trailing separator only makes sense on the queried directory itself")
+    with nt():
+        problems = _idlike_case(PRE[pre] + "@" + SUF[suf], where, deep, rel, sibling)
+    reached()
+    assert not problems
+
+
+def extra_checks(tier_):
+    """E3: z3 builds directory names from the LIVE job id regular expression - names that contain an id-like run without being one
+    (non-empty prefix / non-empty suffix / two adjacent runs / upper-case look-alike) - and every witness is replayed through the real
+    get_job / get_project on a real layout. The language queries themselves (inclusion in 'exactly 32 lowercase hex') are discharged by z3."""
+    import z3
+    from vflib import re2z3
+    out = {"evaluations": 0, "distinct": 0, "queries": 0, "solver_s": 0.0, "violations": [], "errors": [], "samples": [], "info": {}}
+    q = re2z3.Q()
+    try:
+        ID = re2z3.lang_for(P.JOB_ID_REGEX, "fullmatch")
+    except NotImplementedError as e:
+        out["errors"].append(f"JOB_ID_REGEX not translatable: {e}")
+        return out
+    out["info"]["JOB_ID_REGEX"] = P.JOB_ID_REGEX.pattern
+    safe = z3.Union(z3.Range("a", "z"), z3.Range("0", "9"), z3.Range("A", "Z"), z3.Re("."), z3.Re("_"), z3.Re("-"))   # file-name-safe alphabet
+    S1, S0 = z3.Plus(safe), z3.Star(safe)
+    hexd = z3.Union(z3.Range("0", "9"), z3.Range("a", "f"))
+    nonhex = z3.Union(z3.Range("g", "z"), z3.Range("A", "Z"), z3.Re("."), z3.Re("_"), z3.Re("-"))
+    fams = {
+        "id followed by a non-hex tail": z3.Concat(ID, nonhex, S0),
+        "id preceded by a non-hex head": z3.Concat(S0, nonhex, ID),
+        "id embedded in a longer hex run (40 hex)": z3.Concat(z3.Loop(hexd, 4, 4), ID, z3.Loop(hexd, 4, 4)),
+        "two adjacent ids (64 hex)": z3.Concat(ID, ID),
+        "33 hex": z3.Concat(ID, hexd),
+    }
+    hex32 = z3.Loop(hexd, 32, 32)
+    ok, w = q.included("live id language subset-of exactly-32-lowercase-hex", ID, hex32)
+    ok2, w2 = q.included("exactly-32-lowercase-hex subset-of live id language", hex32, ID)
+    if ok is not True or ok2 is not True:
+        out["errors"].append(f"JOB_ID_REGEX is not 'exactly 32 lowercase hex' any more ({w!r} / {w2!r}): the oracle of the C19 layouts must be revisited")
+    for fam, L in fams.items():
+        okn, wn = q.included(f"family '{fam}' is disjoint from the id language (witness = a name to replay)", L, ID)
+        # 'included' = every name of the family IS an id -> family useless; we need a witness that is NOT an id
+        if okn is not False:
+            out["errors"].append(f"family {fam!r}: no witness ({okn})")
+            continue
+        for where in (0, 1):
+            for deep in (False, True):
+                for sibling in (True, False):
+                    try:
+                        problems = _idlike_case(wn, where, deep, False, sibling)
+                    except Exception as e:  # noqa
+                        out["errors"].append(f"replay of witness {wn!r} crashed: {type(e).__name__}: {e}")
+                        continue
+                    out["evaluations"] += 1
+                    if problems:
+                        out["violations"].append({"name": "idlike_" + fam.split()[0] + "_%d%d%d" % (where, deep, sibling), "msg": f"{fam}: name {wn!r} where={where} deep={deep}: {problems[0]}",
+                                                  "call": f"_idlike_case({wn!r}, {where}, {deep}, False, {sibling})", "witness": repr(wn)})
+    out["evaluations"] += q.n
+    out["distinct"] = out["evaluations"]
+    out["queries"] = q.n
+    out["solver_s"] = q.t
+    out["samples"] = q.log
+    return out
+
+
 HARNESSES = [
     dict(name="h_layout", timeout=(900, 3000), parts=(16, 32), unblock=True),
     dict(name="h_nested", timeout=(200, 400), unblock=True),
     dict(name="h_symlink", timeout=(200, 400), unblock=True),
     dict(name="h_init", timeout=(300, 600), unblock=True),
+    dict(name="h_idlike", timeout=(300, 600), parts=(4, 4), unblock=True),
 ]
